@@ -716,3 +716,73 @@ Definition S_scoped_assign_disconnects_old_reachable : Prop :=
     step prog rec (OKAssign k c) st = Done st' tt ->
     conn_ptr (WK k) st' = pc /\
     exists im', aget i (impls st') = Some im' /\ map n_id (i_nodes im') = map n_id (del_node n (i_nodes im)).
+
+(* ------------------------------------------------------------------------------------------ *)
+(* C15: assignment *)
+
+Definition S_slot_assign_copies : Prop :=
+  forall prog rec sd ss st st' dst src, WF st -> live_slot sd st = Some dst -> live_slot ss st = Some src ->
+    sd <> ss -> rkind_eqb (kind_of_slot sd st) (kind_of_slot ss st) = true -> sb_empty src = false ->
+    step prog rec (OSAssign sd ss) st = Done st' tt ->
+    live_slot ss st' = Some src /\
+    exists cp r, live_slot sd st' = Some cp /\ sb_blocked cp = sb_blocked src /\ body_of cp = body_of src /\
+                 sb_rep cp = Some r /\ r_valid r = true /\ r_id r = next_rid st.
+
+(* assigning an empty (or invalidated) slot empties the target; its own functor is released *)
+Definition S_slot_assign_from_empty : Prop :=
+  forall prog rec sd ss st st' dst src, WF st -> live_slot sd st = Some dst -> live_slot ss st = Some src ->
+    sd <> ss -> rkind_eqb (kind_of_slot sd st) (kind_of_slot ss st) = true -> sb_empty src = true -> sb_rep dst <> None ->
+    step prog rec (OSAssign sd ss) st = Done st' tt ->
+    live_slot sd st' = Some (mkSB None (sb_blocked dst)) /\ live_slot ss st' = Some src.
+
+Definition S_slot_self_assign : Prop :=
+  forall prog rec s st st' sb, WF st -> live_slot s st = Some sb ->
+    (step prog rec (OSAssign s s) st = Done st' tt \/ step prog rec (OSMoveAssign s s) st = Done st' tt) ->
+    live_slot s st' = Some sb.
+
+Definition S_slot_move_assign : Prop :=
+  forall prog rec sd ss st st' dst src, WF st -> live_slot sd st = Some dst -> live_slot ss st = Some src ->
+    sd <> ss -> rkind_eqb (kind_of_slot sd st) (kind_of_slot ss st) = true -> sb_empty src = false ->
+    step prog rec (OSMoveAssign sd ss) st = Done st' tt ->
+    live_slot ss st' = Some sb_none /\
+    exists mv, live_slot sd st' = Some mv /\ sb_blocked mv = sb_blocked src /\
+               option_map r_id (sb_rep mv) = option_map r_id (sb_rep src) /\ body_of mv = body_of src.
+
+(* ------------------------------------------------------------------------------------------ *)
+(* C14: two handles to one list are interchangeable *)
+
+Definition S_handles_share_list : Prop :=
+  forall g1 g2 st a b i, live_sig g1 st = Some a -> live_sig g2 st = Some b ->
+    g_impl a = Some i -> g_impl b = Some i -> nodes_of g1 st = nodes_of g2 st.
+
+Definition S_emission_through_either_handle : Prop :=
+  forall prog rec g1 g2 arg st a b, live_sig g1 st = Some a -> live_sig g2 st = Some b ->
+    g_impl a = g_impl b -> g_kind a = g_kind b ->
+    emit_sig prog rec g1 arg st = emit_sig prog rec g2 arg st.
+
+(* ------------------------------------------------------------------------------------------ *)
+(* C02: the other events that notify a trackable's watchers (assignment, move assignment,
+   notify_callbacks) invalidate the slots that refer to it just like destruction does; the object
+   itself stays alive *)
+Definition S_trackable_notify_invalidates : Prop :=
+  forall prog rec t st st', WF st -> prog_track t st <> None ->
+    step prog rec (OTNotify t) st = Done st' tt ->
+    live_track t st' <> None /\
+    (forall r, In r (all_reps st) -> In t (refs_of r) ->
+       forall r', In r' (all_reps st') -> r_id r' = r_id r -> r_valid r' = false /\ r_fn r' = None) /\
+    (forall r f, In r (all_reps st') -> r_fn r = Some f -> ~ In t (f_refs f)).
+
+(* shared ownership: once the program has released its handle and no functor copy owns it, the
+   object is destroyed at the end of the operation (and not before) *)
+Definition S_shared_trackable_lifetime : Prop :=
+  forall prog st st' t, WF st -> NoDup (map fst (shared st)) -> gc_shared prog st = Ok st' ->
+    (live_track t st <> None -> live_track t st' = None ->
+       is_released t st = true /\ In t (map fst (shared st))) /\
+    (live_track t st' <> None -> is_released t st' = true -> In t (map fst (shared st')) -> 0 < owner_count prog t st').
+
+(* without distinct keys in the table of shared trackables (a well-formed but unreachable state) *)
+Definition S_shared_trackable_lifetime_dupkeys : Prop :=
+  forall prog st st' t, WF st -> gc_shared prog st = Ok st' ->
+    (live_track t st <> None -> live_track t st' = None ->
+       is_released t st = true /\ In t (map fst (shared st))) /\
+    (live_track t st' <> None -> is_released t st' = true -> In t (map fst (shared st')) -> 0 < owner_count prog t st').
